@@ -189,6 +189,11 @@ public:
 
     void bvisit(const Basic &x){};
 
+    void bvisit(const Set &x)
+    {
+        throw NotImplementedError("boundary not implemented for this set");
+    };
+
     void bvisit(const EmptySet &x)
     {
         boundary_ = emptyset();
